@@ -225,7 +225,7 @@ class RequirementsRelationAccessor(
             parent = elmlist._parent._element
 
         loader = elmlist._model._loader
-        if value._element.getparent() is not None:
+        with contextlib.suppress(ValueError):
             loader.idcache_remove(value._element)
         parent.insert(index, value._element)
         loader.idcache_index(value._element)
